@@ -752,4 +752,64 @@ theorem lineToks_field (n : Nat) (label : String) (hlab : label = "" ∨ label =
     simp only [List.cons_append, List.nil_append, lexL_space, List.filterMap_cons, toP]
     simpa using hbody [T (.ident "optional") l]
 
+/-! ## map fields: `map<k, v> name = number;` -/
+
+theorem isIdent_map : IsIdent "map" := ⟨'m', ['a', 'p'], by decide, by decide, by decide⟩
+
+/-- the printed type of a map field -/
+def mapTy (k : String) (abs : Bool) (first : String) (rest : List String) : String :=
+  "map<" ++ tyStr false k [] ++ ", " ++ tyStr abs first rest ++ ">"
+
+def mapLineToks (k : String) (abs : Bool) (first : String) (rest : List String) (name : String) (num : Int)
+    (l : Nat) : List PTok :=
+  T (.ident "map") l :: T (.sym '<') l :: (tyToks false k [] l ++ T (.sym ',') l ::
+    (tyToks abs first rest l ++ T (.sym '>') l :: T (.ident name) l :: tailToks num l))
+
+theorem stopsI_sym (c : Char) (h : isIdentChar c = false) (cs : List Char) : StopsI (c :: cs) := by
+  intro d r hd; simp only [List.cons.injEq] at hd; rw [← hd.1]; exact h
+
+theorem lineToks_map (n : Nat) (k : String) (abs : Bool) (first : String) (rest : List String) (name : String)
+    (num : Int) (l : Nat) (hk : IsIdent k) (hf : IsIdent first) (hr : ∀ r ∈ rest, IsIdent r) (hn : IsIdent name) :
+    lineToks (OptionText.ind n ("" ++ mapTy k abs first rest ++ " " ++ name ++ " = " ++ formatInt num ++ ";" ++ "")) l =
+      mapLineToks k abs first rest name num l := by
+  unfold lineToks OptionText.ind mapLineToks mapTy
+  simp only [String.toList_append, String.toList_ofList, List.append_assoc]
+  rw [lexL_spaces]
+  have hsp : (" ".toList : List Char) = [' '] := by decide
+  have heq : (" = ".toList : List Char) = [' ', '=', ' '] := by decide
+  have hsemi : (";".toList : List Char) = [';'] := by decide
+  have hempty : ("".toList : List Char) = [] := by decide
+  have hmap : ("map<".toList : List Char) = "map".toList ++ ['<'] := by decide
+  have hcomma : (", ".toList : List Char) = [',', ' '] := by decide
+  have hgt : (">".toList : List Char) = ['>'] := by decide
+  rw [hsp, heq, hsemi, hempty, hmap, hcomma, hgt]
+  simp only [List.append_nil, List.cons_append, List.nil_append, List.append_assoc]
+  rw [lexL_ident "map" isIdent_map _ (stopsI_sym '<' (by decide) _), lexL_sym '<' (by decide)]
+  simp only [List.filterMap_cons, toP]
+  rw [lexL_tyStr false k [] _ l hk (by simp) (stopsI_sym ',' (by decide) _), lexL_sym ',' (by decide), lexL_space]
+  simp only [List.filterMap_cons, toP]
+  rw [lexL_tyStr abs first rest _ l hf hr (stopsI_sym '>' (by decide) _), lexL_sym '>' (by decide), lexL_space,
+    lexL_ident name hn _ (stopsI_space _)]
+  simp only [List.filterMap_cons, toP, lexL_tail, List.append_assoc, List.cons_append]
+
+theorem parseField_map (k : String) (abs : Bool) (first : String) (rest : List String) (name : String) (num : Int)
+    (l : Nat) (more : List PTok) (hk : IsIdent k) (hf : IsIdent first) :
+    parseField (mapLineToks k abs first rest name num l ++ more) =
+      some (locField "" (mapTy k abs first rest) name num l (trailOf more), more) := by
+  have hty1 := typeName_toks false k [] l (T (.sym ',') l ::
+    (tyToks abs first rest l ++ T (.sym '>') l :: T (.ident name) l :: (tailToks num l ++ more))) hk.ne_empty
+    (by intro t r h; simp only [List.cons.injEq] at h; rw [← h.1]; simp [T])
+  have hty2 := typeName_toks abs first rest l (T (.sym '>') l :: T (.ident name) l :: (tailToks num l ++ more)) hf.ne_empty
+    (by intro t r h; simp only [List.cons.injEq] at h; rw [← h.1]; simp [T])
+  unfold mapLineToks
+  simp only [List.cons_append, List.append_assoc, T] at hty1 hty2 ⊢
+  have hne1 : ("map" == "repeated") = false := by decide
+  have hne2 : ("map" == "optional") = false := by decide
+  simp only [parseField, splitLabel, hne1, hne2, Bool.false_eq_true, if_false, fieldAfterLabel, beq_self_eq_true,
+    Bool.and_self, if_true, mapField]
+  rw [hty1]
+  simp only []
+  rw [hty2]
+  simp only [fieldTail_toks, Option.map_some, mkField_plain, mapTy]
+
 end J5V.Print.Grammar
